@@ -129,6 +129,53 @@ CHECKS = {
              "drivers (operations take microseconds)",
         technique="TLA+ model checking (TLC) of the scaled mechanism + slot-exact trace validation at the real constant",
         engine="vstorage"),
+    "C27": dict(
+        level="model_checking",
+        text='AgdbRaft.tla (raft.rs transcribed handler by handler in RaftCore.tla; lossy, duplicating network; free timers) is model-checked: ElectionSafety (history of <<node, term>> leaders) holds exhaustively for the election configuration. The vraft simulator runs seeded random schedules (delivery, loss, duplication, arbitrary timer expiries, 3 and 5 nodes) on the REAL raft.rs; RaftTrace.tla decides every step (same process() branch for the logged time, same response, same new requests, same complete node state) and evaluates ElectionSafety in every state. The TLC counterexample of the unrepaired protocol (two votes in one term, D12) is replayed on the real code on every run. On model drift the executions are decided at property level (RaftTraceAbs) with a tripled budget.',
+        design='3.9, 4 C27',
+        note="exhaustive only for the constants of the TLC configurations (3 nodes, terms <= 2, log <= 2, budgets of timer firings / "
+             "heartbeats / messages in flight, loss decided at send time); schedules on the real code are sampled (seeded, 3 and 5 "
+             "nodes); the simulator's log store mirrors ClusterStorage/ClusterLog; raft.rs is the unmodified file from /repo with the "
+             "clock import substituted at build time; node restarts are outside the property's quantifier",
+        technique="TLA+ model checking (TLC) + trace validation of the real raft.rs in a deterministic simulator + replay of TLC "
+                  "counterexamples on the real code",
+        engine="vraft"),
+    "C28": dict(
+        level="model_checking",
+        text='As C27 with client appends: CommitAgreement, CommitStable (an entry once committed on a node is never removed or replaced) and CommitMonotone are invariants of AgdbRaft.tla and of every validated execution of the real raft.rs. The protocol violates CommitAgreement (defects D13/D13b: TLC counterexample, 13 steps from an established leader, replayed on the real code on every run and reported as KNOWN-FINDING); the model-checking configuration therefore checks the properties for behaviours that no listed defect trigger (RaftCore!Triggers, history variable) explains, and any violation on the real code whose trigger set is not listed is reported.',
+        design='3.9, 4 C28, 6 D13',
+        note="exhaustive only for the constants of the TLC configurations (3 nodes, terms <= 2, log <= 2, budgets of timer firings / "
+             "heartbeats / messages in flight, loss decided at send time); schedules on the real code are sampled (seeded, 3 and 5 "
+             "nodes); the simulator's log store mirrors ClusterStorage/ClusterLog; raft.rs is the unmodified file from /repo with the "
+             "clock import substituted at build time; node restarts are outside the property's quantifier",
+        technique="TLA+ model checking (TLC) + trace validation of the real raft.rs in a deterministic simulator + replay of TLC "
+                  "counterexamples on the real code",
+        engine="vraft"),
+    "C29": dict(
+        level="model_checking",
+        text='As C28 for LeaderCompleteness: the entries a node commits while Leader are recorded (history), and at every step in which a node becomes Leader its log must contain all of them. The D13b counterexample extended by one election (a node holding a different entry at a committed index is elected) is replayed on the real code on every run (KNOWN-FINDING).',
+        design='3.9, 4 C29, 6 D13',
+        note="exhaustive only for the constants of the TLC configurations (3 nodes, terms <= 2, log <= 2, budgets of timer firings / "
+             "heartbeats / messages in flight, loss decided at send time); schedules on the real code are sampled (seeded, 3 and 5 "
+             "nodes); the simulator's log store mirrors ClusterStorage/ClusterLog; raft.rs is the unmodified file from /repo with the "
+             "clock import substituted at build time; node restarts are outside the property's quantifier",
+        technique="TLA+ model checking (TLC) + trace validation of the real raft.rs in a deterministic simulator + replay of TLC "
+                  "counterexamples on the real code",
+        engine="vraft"),
+    "C30": dict(
+        level="model_checking",
+        text="AgdbRaftHealthy.tla: RaftCore with its real timer arithmetic (virtual ms), a global clock that only advances when nothing is in "
+             "flight and no process() branch is due, a reliable network, all delivery orders; 'eventually' is the state invariant "
+             "HealthyProgress (at every quiet state at or after the deadline: exactly one leader, all in its term, equal logs, every entry "
+             "appended Settle ms earlier committed everywhere), with a vacuity probe. The vraft simulator runs the real raft.rs in the same "
+             "regime from the cold start and after a fault-ridden election prefix (3 and 5 nodes, 30 s of virtual time, client appends); "
+             "RaftTrace.tla decides conformance of every step and Converged at the final Quiet event.",
+        design="3.9, 4 C30",
+        note="healthy = no loss/duplication, zero latency relative to the timers, process() at every clock step, synchronous clocks, "
+             "shipped timer ratios; bounded-time convergence stands in for 'eventually' (model: 1 s after cold start, horizon 5 s; "
+             "implementation: observed after 30 s); healthy schedules on the real code are sampled",
+        technique="TLA+ model checking (TLC) of the timed healthy model + trace validation of the real raft.rs in a deterministic simulator",
+        engine="vraft"),
     "C32": dict(
         level="fault_enumeration",
         text="A public StorageData wrapper around the real FileStorage (no hook) makes the k-th write/resize call of a query "
@@ -155,6 +202,10 @@ ENGINES = [
      "kind_free_text": "Rust driver recording query histories from the real database (all storage variants); "
                        "TLC for DbModel/DbSearch/DbTrace/MCDb"},
 ]
+
+ENGINES.append({"name": "vraft", "path": "harness/vraft", "serves_properties": ["C27", "C28", "C29", "C30"],
+                "kind_free_text": "deterministic simulator around the real agdb_server/src/raft.rs (virtual clock substituted at build time, "
+                                  "in-memory log store mirroring ClusterStorage); TLC for RaftCore/AgdbRaft/AgdbRaftHealthy/RaftTrace"})
 
 NOT_APPLICABLE = [
     {"property_id": "C07", "reason": "robustness/memory-safety over arbitrary file bytes (panic, abort, allocation size): no state machine for a TLA+ specification to constrain, TLC cannot observe panics or allocations"},
